@@ -232,6 +232,8 @@ pub enum Top
 	Const(usize),
 	Struct(usize),
 	Func(usize),
+	/// verbatim text (fault injection)
+	Raw(usize),
 }
 
 #[derive(Debug, Clone, Default)]
@@ -244,6 +246,8 @@ pub struct Program
 	pub order: Vec<Top>,
 	/// `import "x";` lines printed first (used by the module splitter)
 	pub imports: Vec<String>,
+	/// verbatim top-level text chunks
+	pub raws: Vec<String>,
 }
 
 #[derive(Debug, Clone, Copy, PartialEq, Eq, Hash)]
@@ -646,6 +650,13 @@ impl<'a, 'c> Printer<'a, 'c>
 				Top::Const(k) => self.constant(&prog.consts[*k]),
 				Top::Struct(k) => self.structure(&prog.structs[*k]),
 				Top::Func(k) => self.function(&prog.funcs[*k]),
+				Top::Raw(k) =>
+				{
+					for l in prog.raws[*k].lines()
+					{
+						self.line(l);
+					}
+				}
 			}
 		}
 		self.out
